@@ -243,7 +243,7 @@ def _derive(d, kind, arg):
       hi = lo
     d['min'], d['max'] = lo, hi
     return d
-  if kind == 'xform' and t not in ('union', 'any'):
+  if kind == 'xform' and t in specs.XFORM_KINDS:
     # the same spec with a user transform (the identity) and a default (applied through it when the spec is built)
     if d.get('xform'):
       d.pop('xform')
